@@ -51,12 +51,13 @@ CLASSES = {'FORK': Fork, 'SLURM': Slurm, 'PBSPRO_VNODE': PBSPro, 'PBSPRO_FILE': 
 
 FIELDS = ['rm', 'hosts', 'shape', 'pseudo', 'pslots', 'uneven', 'style', 'cores', 'smt', 'known',
           'gpn', 'gpusrc', 'bc', 'bg', 'requested', 'slack', 'backup', 'agents', 'service',
-          'refused', 'hangs']
+          'refused', 'hangs', 'oldfiles']
 
 # Slurm environment variables that announce the GPUs of a node
 GPU_ENV = {'GPUS_ON_NODE': 'SLURM_GPUS_ON_NODE', 'JOB_GPUS': 'SLURM_JOB_GPUS',
            'STEP_GPUS': 'SLURM_STEP_GPUS', 'DEVICE_ORDINAL': 'GPU_DEVICE_ORDINAL'}
 
+OLD_HOSTS = [81, 82]          # RMNodesOps!OldHosts: what older CCM node files list
 PSEUDO = {101: 'login1', 102: 'batch2', 103: 'launch3'}
 
 # environment variables any of the RMs looks at
@@ -74,6 +75,7 @@ def case_from_tuple(t):
     c['bg']    = sorted(c['bg'])
     c['refused'] = sorted(c.get('refused', []))
     c['hangs']   = sorted(c.get('hangs', []))
+    c['oldfiles'] = c.get('oldfiles', 'none')
     return c
 
 
@@ -304,10 +306,26 @@ class RMNodesRig(object):
         elif rm == 'LSF':
             os.environ['LSB_DJOB_HOSTFILE'] = nf
         elif rm == 'CCM':
-            if self.ccm != text:
-                self.ccm = text
-                with open(os.path.join(self.wd, '.crayccm', 'nodelist.4711'), 'w') as fh:
-                    fh.write(text)
+            # ~/.crayccm: the current job's node file is the NEWEST nodelist* file; older
+            # jobs may have left theirs (other hosts), named so that the name order
+            # agrees with the age order, or not (job ids which gained a digit)
+            key = (text, c.get('oldfiles', 'none'))
+            if self.ccm != key:
+                self.ccm = key
+                ddir = os.path.join(self.wd, '.crayccm')
+                for f in os.listdir(ddir):
+                    os.unlink(os.path.join(ddir, f))
+                slots = c['cores'] * c['smt']
+                old   = ''.join(host_name(h, rm) + '\n' for h in OLD_HOSTS for _ in range(slots))
+                files = {'none'       : [],
+                         'name_eq_age': ['nodelist.100000', 'nodelist.100001'],
+                         'name_ne_age': ['nodelist.99998',  'nodelist.99999']}[key[1]]
+                t0 = 1700000000
+                for k, f in enumerate(files + ['nodelist.100002']):
+                    path = os.path.join(ddir, f)
+                    with open(path, 'w') as fh:
+                        fh.write(text if f == 'nodelist.100002' else old)
+                    os.utime(path, (t0 + 1000 * k, t0 + 1000 * k))      # the current one is last
 
         # the pilot job carries RADICAL_SMT (set by _prepare_pilot); the platform
         # configuration carries it as well: use either source
